@@ -27,3 +27,60 @@ Definition float_of_int (p bias width z : Z) : Z :=
 
 Definition f32_of_int (z : Z) : Z := float_of_int 24 127 32 z.
 Definition f64_of_int (z : Z) : Z := float_of_int 53 1023 64 z.
+
+(* ---- one float width to the other: `v as f32` for an f64 (FloatBuilder<f32>::serialize_f64) and `v as f64` for an f32 ----
+   A finite non-zero float is m * 2^x with m > 0.  Rounding to a format with p significand bits whose smallest quantum
+   (the spacing of the subnormals) is 2^qmin: the quantum of the result is 2^qe with qe = max (e - (p-1)) qmin, e the
+   exponent of the leading bit; the significand is m * 2^x / 2^qe rounded to the nearest integer, ties to even. *)
+Definition round_scaled (p qmin m x : Z) : Z * Z :=
+  let e := Z.log2 m + x in
+  let qe := Z.max (e - (p - 1)) qmin in
+  if qe <=? x then (m * 2 ^ (x - qe), qe)
+  else
+    let sh := qe - x in
+    let q := m / 2 ^ sh in
+    let r := m mod 2 ^ sh in
+    let half := 2 ^ (sh - 1) in
+    let up := (half <? r) || ((r =? half) && Z.odd q) in
+    ((if up then q + 1 else q), qe).
+
+(* the word for significand q at quantum 2^qe: with the exponent field written as "field - 1" and the leading bit of q
+   added on top, subnormals (field 0), normals and the carry of a rounded-up all-ones significand are one formula;
+   beyond the largest finite value the result is infinity *)
+Definition encode_mag (p bias width q qe : Z) : Z :=
+  let inf := (2 ^ (width - p) - 1) * 2 ^ (p - 1) in
+  let field1 := Z.max 0 (qe + (p - 1) + bias - 1) in
+  Z.min inf (field1 * 2 ^ (p - 1) + q).
+
+(* decode a word of a format: sign, and either zero, a finite magnitude m * 2^x, infinity or a NaN with its fraction *)
+Inductive FClass := FZero | FFinite (m x : Z) | FInf | FNaN (frac : Z).
+Definition classify (p bias width bits : Z) : bool * FClass :=
+  let sign := 2 ^ (width - 1) <=? bits in
+  let mag := bits mod 2 ^ (width - 1) in
+  let field := mag / 2 ^ (p - 1) in
+  let frac := mag mod 2 ^ (p - 1) in
+  (sign,
+   if field =? 2 ^ (width - p) - 1 then (if frac =? 0 then FInf else FNaN frac)
+   else if field =? 0 then (if frac =? 0 then FZero else FFinite frac (1 - bias - (p - 1)))
+   else FFinite (frac + 2 ^ (p - 1)) (field - bias - (p - 1))).
+
+(* source format (p1 bias1 width1) to target format (p2 bias2 width2); a NaN stays a NaN: quiet, the leading bits of
+   its fraction kept (what the conversion instructions of x86-64 and AArch64 do) *)
+Definition convert_float (p1 bias1 width1 p2 bias2 width2 bits : Z) : Z :=
+  let '(sign, c) := classify p1 bias1 width1 bits in
+  let s := if sign then 2 ^ (width2 - 1) else 0 in
+  let inf := (2 ^ (width2 - p2) - 1) * 2 ^ (p2 - 1) in
+  s + match c with
+      | FZero => 0
+      | FInf => inf
+      | FNaN frac => inf + 2 ^ (p2 - 2) + (if p2 <=? p1 then frac / 2 ^ (p1 - p2) else frac * 2 ^ (p2 - p1)) mod 2 ^ (p2 - 2)
+      | FFinite m x => let '(q, qe) := round_scaled p2 (1 - bias2 - (p2 - 1)) m x in encode_mag p2 bias2 width2 q qe
+      end.
+
+Definition f32_of_f64 (bits : Z) : Z := convert_float 53 1023 64 24 127 32 bits.
+Definition f64_of_f32 (bits : Z) : Z := convert_float 24 127 32 53 1023 64 bits.
+
+Arguments f32_of_int : simpl never.
+Arguments f64_of_int : simpl never.
+Arguments f32_of_f64 : simpl never.
+Arguments f64_of_f32 : simpl never.
